@@ -203,7 +203,8 @@ def sw_true_edges(cb):
     sw, fl = terminal_flag(cb)
     if sw is None:
         # simulation: the tail loop follows the main loop; use the eventually contains test
-        return [e for (ins, ec) in cb.ev_inserts for e in [(ec.bb, ec.target)]]
+        return [e for (ins, ec) in cb.ev_inserts
+                for e in (cb.b.branch(ec, 'Some') if ec.is_('Iterator::next') else [(ec.bb, ec.target)])]
     return sw.edges_for(True)
 
 
